@@ -41,6 +41,7 @@ type Profile struct {
 	Torn        bool   `json:"torn,omitempty"`      // torn variants of the in-flight persist (C03)
 	ForkDepth   int    `json:"fork_depth,omitempty"`
 	AckedOnly   bool   `json:"acked_only,omitempty"` // unsafe mode only with persisted callbacks
+	NoMerge     bool   `json:"no_merge,omitempty"`   // no merges at all: many segments per snapshot
 
 	PostRun func(r *Run, res *Result) `json:"-"`
 }
@@ -122,6 +123,10 @@ func decodeKnobs(p *Profile, t *Tape) *Knobs {
 		k.Floor = int64(pick(t, "k.floor", 10, 50))
 		k.MaxSeg = int64(pick(t, "k.maxseg", 200, 5000))
 		k.TierGrowth = float64(pick(t, "k.growth", 3, 10))
+	}
+	if p.NoMerge {
+		k.Tiers, k.MinMemMerge, k.Unsafe, k.PCB, k.NapMS, k.NapUnderFiles = 100000, 100000, true, false, 0, 100000
+		k.SegGates, k.EventGates, k.MidGate, k.Floor = false, false, 0, 1
 	}
 	k.MergeBuf = pick(t, "k.mergebuf", 1024*1024, 1024*1024, 64, 4096)
 	// scheduling weights
@@ -585,6 +590,20 @@ func (r *Run) genBatch(c *client) *BatchSpec {
 		}
 		return ""
 	}
+	if r.p.NoMerge {
+		// many live segments: single inserts, now and then an update so that
+		// older segments carry deleted bitmaps
+		kind := OpInsert
+		if t.Chance(1, 10, "op.nm.update") {
+			kind = OpUpdate
+		}
+		id := fmt.Sprintf("n%04d", b.N) // unique: an insert never meets an update of its id
+		if kind == OpUpdate || b.N%16 == 0 {
+			id = r.idspace[t.Draw(len(r.idspace), "op.id")]
+		}
+		b.Ops = []BatchOp{mk(kind, id, 0)}
+		return b
+	}
 	if t.Chance(3, 10, "op.single") {
 		kind := kindOf()
 		id := idOf(map[string]bool{})
@@ -1023,6 +1042,7 @@ func newRun(p *Profile, t *Tape, scratch string) *Run {
 	r := &Run{p: p, t: t, stored: map[string]map[string]string{}, acks: map[int]int{}, ackErr: map[int]string{}, invokeSeq: map[int]int{},
 		merging: map[string][]string{}, callWin: map[int]int{}, docs: map[string]*DocSpec{}, recovered: map[int]*Content{}}
 	r.stats.Probes = map[string]int{}
+	r.stats.Faults = map[string]int{}
 	r.root = filepath.Join(scratch, fmt.Sprintf("run-%d", runCounter))
 	r.dir = filepath.Join(r.root, "d0")
 	return r
